@@ -598,6 +598,8 @@ htp_status_t htp_tx_req_process_body_data(htp_tx_t *tx, const void *data, size_t
     return htp_tx_req_process_body_data_ex(tx, data, len);
 }
 
+static htp_status_t htp_timer_track(int32_t *time_spent, struct timeval * after, struct timeval *before);
+
 htp_status_t htp_tx_req_process_body_data_ex(htp_tx_t *tx, const void *data, size_t len) {
     if (tx == NULL) return HTP_ERROR;
 
@@ -636,8 +638,21 @@ htp_status_t htp_tx_req_process_body_data_ex(htp_tx_t *tx, const void *data, siz
                 return HTP_ERROR;
             }
 
+            struct timeval after;
+            gettimeofday(&tx->connp->req_decompressor->time_before, NULL);
             // Send data buffer to the decompressor.
+            tx->connp->req_decompressor->nb_callbacks=0;
             htp_gzip_decompressor_decompress(tx->connp->req_decompressor, &d);
+            gettimeofday(&after, NULL);
+            // sanity check for race condition if system time changed
+            if ( htp_timer_track(&tx->connp->req_decompressor->time_spent, &after, &tx->connp->req_decompressor->time_before) == HTP_OK) {
+                if ( tx->connp->req_decompressor->time_spent > tx->connp->cfg->compression_time_limit ) {
+                    htp_log(tx->connp, HTP_LOG_MARK, HTP_LOG_ERROR, 0,
+                            "Compression bomb: spent %"PRId32" us decompressing",
+                            tx->connp->req_decompressor->time_spent);
+                    tx->connp->req_decompressor->passthrough = 1;
+                }
+            }
 
             if ((data == NULL) && (len == 0)) {
                 // Shut down the decompressor, if we used one. (NULL data
